@@ -65,7 +65,7 @@ fn value_defining_opcodes() -> &'static Vec<u16> {
 /// mode-setting and structural ones, which a parser might be tempted to key behaviour on
 const BYSTANDERS: &[&str] = &[
     "Capability", "Capability", "Extension", "ExtInstImport", "MemoryModel", "EntryPoint", "ExecutionMode", "Source", "SourceExtension", "Name",
-    "Decorate", "Function", "Label", "FunctionEnd", "Nop", "Line", "NoLine", "Return", "Branch", "TypeVoid", "TypeBool", "TypeVector", "TypePointer",
+    "Decorate", "Decorate", "Decorate", "MemberDecorate", "Function", "Label", "FunctionEnd", "Nop", "Line", "NoLine", "Return", "Branch", "TypeVoid", "TypeBool", "TypeVector", "TypePointer",
 ];
 
 fn gen_history(rng: &mut Rng, id_base: u32, conflicting_with: Option<&Stream>) -> Stream {
@@ -81,6 +81,15 @@ fn gen_history(rng: &mut Rng, id_base: u32, conflicting_with: Option<&Stream>) -
     let mut forward: Vec<(u32, bool, u32)> = vec![]; // declared later
     // when building the conflicting "other" stream, reuse the main stream's ids with different widths
     let mut reuse: Vec<u32> = conflicting_with.map(|m| m.insts.iter().filter_map(|i| i.rid).collect()).unwrap_or_default();
+    // real modules carry their annotations in front: a few decorations / names first (their targets are re-aimed at ids
+    // of this history, defined later, by the pass at the end)
+    if g.rng.chance(1, 3) {
+        for _ in 0..g.rng.range(1, 4) {
+            let op = s.op(*g.rng.pick(&["Decorate", "Decorate", "Decorate", "MemberDecorate", "Name", "DecorateId"]));
+            let i = g.inst(op);
+            insts.push(i);
+        }
+    }
     let bystanders = g.rng.chance(1, 2);
     // ids that are defined but carry no int/float type (other types, labels, imports, ...): "unknown" to the rule
     let mut other_ids: Vec<u32> = vec![];
@@ -259,6 +268,20 @@ fn gen_history(rng: &mut Rng, id_base: u32, conflicting_with: Option<&Stream>) -
             g.note(&i);
             type_ids.push(id);
             insts.push(i);
+        }
+    }
+    // annotations precede what they annotate: half of the decoration / name bystanders aim at an id of this history
+    // (often one that is defined later)
+    let rids: Vec<u32> = insts.iter().filter_map(|i| i.rid).collect();
+    if !rids.is_empty() {
+        for i in insts.iter_mut() {
+            if matches!(i.name().as_str(), "Decorate" | "DecorateId" | "DecorateString" | "MemberDecorate" | "Name" | "MemberName") && g.rng.chance(1, 2) {
+                if let Some(MOp::W(k, v)) = i.ops.get_mut(0) {
+                    if *k == s.k_idref {
+                        *v = *g.rng.pick(&rids);
+                    }
+                }
+            }
         }
     }
     let bound = g.next_id + 100;
